@@ -143,6 +143,41 @@ fn one_over_length_long(kind: &str, len: usize, n: u64, seed: u64, rep: &mut Rep
     t.finish(rep);
 }
 
+/// Ordinary rates on genomes of millions of genes (aggregated): the configured rate acts, and the
+/// mutation answers in time linear in the genome (a mutation whose cost grows with the square of
+/// the length never completes one evaluation within the hang budget at these sizes).
+fn with_rate_long(kind: &str, rate: f32, len: usize, n: u64, seed: u64, rep: &mut Report) {
+    let cfg = format!("{kind} rate={rate} len={len} (long genome, aggregated)");
+    vh_core::shard::set_context(format!("C12 {cfg}"));
+    let mut rng = TraceRng::derive(seed, "C12-rate-long", fnv_str(&cfg));
+    let parent: Vec<bool> = (0..len).map(|i| i % 3 == 0).collect();
+    let (mut flips, mut first_half) = (0u64, 0u64);
+    for _ in 0..n {
+        let child: Vec<bool> = if kind.ends_with("Vec<bool>") {
+            WithRate::new(rate).mutate(parent.clone(), &mut rng).unwrap()
+        } else {
+            WithRate::new(rate).mutate(Bitstring { bits: parent.clone() }, &mut rng).unwrap().bits
+        };
+        rep.eval();
+        if child.len() != len {
+            rep.violation("C12/flip/length", || json!({"config": cfg}));
+            return;
+        }
+        for i in 0..len {
+            if child[i] != parent[i] {
+                flips += 1;
+                if i < len / 2 {
+                    first_half += 1;
+                }
+            }
+        }
+    }
+    let mut t = Table::new(cfg);
+    t.cat(rep, "flip-rate", "any gene flipped (aggregated over positions)", n * len as u64, flips, f64::from(rate));
+    t.cat(rep, "flip-rate", "a gene in the first half flipped", n * (len / 2) as u64, first_half, f64::from(rate));
+    t.finish(rep);
+}
+
 fn umad_config(add: f64, del: f64, len: usize, n: u64, seed: u64, rep: &mut Report) {
     // every constructor: the empty-genome rate (of `new_with_empty_rate`) is deliberately far from
     // both other rates, and must not influence what happens to a non-empty parent
@@ -552,6 +587,7 @@ enum Cfg {
     Gene(usize, Option<f32>, bool, bool, usize),
     GeneLarge(usize, usize),
     OneOverLong(&'static str, usize, u64),
+    RateLong(&'static str, f32, usize),
     UniformLags(usize, usize),
     FlipLags(usize, usize),
 }
@@ -625,6 +661,11 @@ pub fn run(args: &Args) -> i32 {
             cfgs.push(Cfg::OneOverLong(kind, len, muts));
         }
     }
+    for kind in ["WithRate/Vec<bool>", "WithRate/Bitstring"] {
+        for (rate, len) in [(0.5f32, 1usize << 22), (1.0, 1 << 22), (0.01, 6_000_000)] {
+            cfgs.push(Cfg::RateLong(kind, rate, len));
+        }
+    }
     for fl in 0..4 {
         for len in [70usize, 130] {
             cfgs.push(Cfg::UniformLags(fl, len));
@@ -659,6 +700,7 @@ pub fn run(args: &Args) -> i32 {
             Cfg::UmadEmpty(c, a, e) => umad_empty_config(*c, *a, *e, n, args.seed, &mut rep),
             Cfg::Uniform(fl, len) => uniform_config(*fl, *len, n / (*len as u64).clamp(1, 8) / (*len as u64 / 64).max(1), args.seed, &mut rep),
             Cfg::Bits(w, p, len) => bitstring_config(*w, *p, *len, n / (*len as u64).clamp(1, 8) / (*len as u64 / 64).max(1), args.seed, &mut rep),
+            Cfg::RateLong(kind, rate, len) => with_rate_long(kind, *rate, *len, 2, args.seed, &mut rep),
             Cfg::OneOverLong(kind, len, muts) => one_over_length_long(kind, *len, *muts * args.tier.pick(1, 8), args.seed, &mut rep),
             Cfg::GeneLarge(k, ctor) => gene_config_large(*k, *ctor, n * 8, args.seed, &mut rep),
             Cfg::Gene(k, c, s, v, ctor) => gene_config(*k, *c, *s, *v, *ctor, n / 2, args.seed, &mut rep),
